@@ -499,8 +499,16 @@ _orig_walk = pyx12.map_walker.walk_tree.walk
 _orig_load = pyx12.map_if.load_map_file
 
 
+MEMO_MAPS = False       # harness-side speed-up for checks that create many readers of the same map (never on by default)
+_memo = {}
+
+
 def _tag_load(map_file, param, map_path=None):
+    if MEMO_MAPS and (map_file, map_path) in _memo:
+        return _memo[(map_file, map_path)]
     m = _orig_load(map_file, param, map_path)
+    if MEMO_MAPS:
+        _memo[(map_file, map_path)] = m
     try:
         m._verif_file = map_file
     except Exception:
